@@ -73,7 +73,7 @@ def check(chk: Check) -> None:
         kinds = om.op_field_kinds(F, cls)
         if kinds.get('op') != 'str':
             continue
-        ops = sorted(set(om.dispatch_strings(F, q)) | set(grammar_ops(F, cls)))
+        ops = om.op_specs(F, cls)
         for op in ops:
             if op in ('and', 'or', 'not', 'in', 'not in') or op.endswith('=') and op not in ('==', '!=', '>=', '<='):
                 continue
